@@ -5,6 +5,7 @@
   1000-element record blocks), every vector position p, every ministep/report-step sequence.
 -/
 import OpmVerif.Proofs.Smry
+import OpmVerif.Proofs.SmryFmt
 
 namespace OpmVerif.Props.C10
 open OpmVerif.Ecl OpmVerif.Smry
@@ -43,7 +44,28 @@ theorem split_combine (n1 n2 : Int) (h1 : 0 ≤ n1) (h1' : n1 < 32768) (h2 : -10
     splitSummaryNumber (combineSummaryNumbers n1 n2) = (n1, n2) :=
   Smry.split_combine n1 n2 h1 h1' h2
 
+/-- **Formatted** unified summary data: the formatted reader (header-line index,
+`sizeOnDiskFormatted` skipping over any number of 1000-value blocks, blank separated tokens)
+delivers, for every ministep and every vector, the 17-character field that was written for
+it (followed at most by the line break) as the token given to `strtod`.  The digits
+themselves (`snprintf`/`strtod`) are compared bit for bit by the C07 correspondence. -/
+theorem write_read_series_formatted (steps : List SmryFmt.MiniStep) (hwf : ∀ m ∈ steps, m.WF) (prev : Int) :
+    ∃ ds, EclFmt.decodeFmtFile (EclFmt.encodeFmtFile (SmryFmt.writeSteps prev steps)) = some ds ∧
+      EclFmt.All2 (fun (m : SmryFmt.MiniStep) (ts : List (List Char)) => EclFmt.All2 EclFmt.TokRel m.fields ts)
+        steps (SmryFmt.paramsOf ds) :=
+  SmryFmt.series_roundtrip steps hwf prev
+
 /-! Non-vacuity -/
+
+def fmtStep (seq id : Nat) : SmryFmt.MiniStep :=
+  { seq := seq, id := id,
+    fields := ["   0.10000000E+01".toList, "  -0.25000000E-03".toList, "   0.00000000E+00".toList,
+               "   0.12345678E+09".toList, "   0.99999999E+38".toList] }
+
+example : EclFmt.decodeFmtFile (EclFmt.encodeFmtFile (SmryFmt.writeSteps (-1) [fmtStep 0 0, fmtStep 0 1, fmtStep 1 2])) ≠ none ∧
+    (SmryFmt.writeSteps (-1) [fmtStep 0 0, fmtStep 0 1, fmtStep 1 2]).length = 8 := by
+  decide +kernel
+
 /-- A PARAMS record of 2501 elements (three record blocks) meets the hypotheses, and the
 theorem then speaks about an element in the third block. -/
 example : ∃ es : List Bytes, (∀ e ∈ es, e.length = 4) ∧ 2500 < es.length :=
